@@ -100,13 +100,15 @@ DIMS = ["a", "b", "c", "d"]
 VARS = ["x", "y", "z"]
 TCOORD = [100, 200]
 COORD_TABLES = {
-    "int": ([20, 10, 30], 77),
+    # the 'unknown' label of the int and str flavours would land ON a stored label if it were cast to the
+    # coordinate's dtype (10.5 -> 10, 'qx' -> 'q' as '<U1'): it is still a coordinate the dataset does not have
+    "int": ([20, 10, 30], 10.5),
     "float": ([0.5, -1.5, 0.25], 9.75),
-    "str": (["q", "p", "r"], "zz"),
+    "str": (["q", "p", "r"], "qx"),
     # ascending flavours for the Harvester.expand_dims route: merging (outer join) sorts the indexes
-    "ints": ([10, 20, 30], 77),
+    "ints": ([10, 20, 30], 20.5),
     "floats": ([-1.5, 0.25, 0.5], 9.75),
-    "strs": (["p", "q", "r"], "zz"),
+    "strs": (["p", "q", "r"], "px"),
 }
 SORTED_VARIANTS = ["ints", "floats", "strs"]
 VARIANTS = ["int", "float", "str", "mixed"]
@@ -196,6 +198,15 @@ def build_ds(c):
         vdims = list(dims) + (["t"] if v in intvars else [])
         if v not in intvars:
             arr = arr[..., 0]
+        vdt = (c.get("vdtypes") or {}).get(str(v))
+        if vdt:
+            # data refinement of the cell state "data": a variable whose every cell holds data may as well be
+            # an integer, boolean or string variable (none of which can hold a null)
+            if any(k != "data" for row in c["cells"] for k in row[s - nt:s]):
+                raise RuntimeError("harness: variable %d is given dtype %s but has null cells" % (v, vdt))
+            q = np.round(arr * 4).astype(int)
+            arr = {"int": q, "bool": q % 2 == 0,
+                   "str": np.array(["s%d" % x for x in q.ravel()]).reshape(q.shape)}[vdt]
         if layout == "transposed" and v >= 2:      # the first variable fixes the dataset's dimension order
             arr = arr.transpose(*reversed(range(arr.ndim)))
             vdims = vdims[::-1]
@@ -438,6 +449,13 @@ def check_one(c):
     return bad
 
 
+def _all_data(c, v):
+    """every cell of variable v (1-based) holds data at every location"""
+    lo = sum(2 if u in c["intvars"] else 1 for u in range(1, v))
+    hi = lo + (2 if v in c["intvars"] else 1)
+    return all(k == "data" for row in c["cells"] for k in row[lo:hi])
+
+
 def _viol(bad):
     return [b for b in bad if b[0] != "note"]
 
@@ -472,7 +490,8 @@ def run(rep):
         "internal dimension of size 2; the 16-location shape is model-checked only",
         "coordinate flavours (int unsorted / float / str / mixed), the stored dimension order of the variables (natural / "
         "every variable permuted against the dataset's order / variables 2.. reversed), growth of the three-dimensional "
-        "patterns by a real Harvester (expand_dims then harvest_cases, ascending coordinates), Dataset vs DataArray and the "
+        "patterns by a real Harvester (expand_dims then harvest_cases, ascending coordinates), the dtype of variables that "
+        "hold data everywhere (float / int / bool / str), Dataset vs DataArray and the "
         "spelling of ignore_dims are rotated over the emitted cases by the harness, not enumerated by TLC",
         "the harvest step of the find->harvest->find loop uses overwrite=True under the isfinite criterion (a reported "
         "cell may hold +-inf, which the default merge policy treats as conflicting data - that is C05's subject)",
@@ -525,7 +544,15 @@ def run(rep):
             cc = dict(c)
             cc["variant"] = fl
             cc["layout"] = ["natural", "permuted", "transposed"][n % 3]
-            if c["sizes"] == [2, 2, 2] and c["mode"] == "find" and n % 2 == 0:
+            # variables all of whose cells hold data become int / bool / str variables (at least one float variable
+            # stays; str only under isnull: np.isfinite is not defined for strings)
+            full = [v for v in range(1, c["nv"] + 1) if _all_data(c, v)]
+            if c["nv"] >= 2 and full and n % 4 != 3:
+                if len(full) == c["nv"]:
+                    full = full[:-1]
+                kinds = ["int", "bool", "str"] if c["method"] == "isnull" else ["int", "bool"]
+                cc["vdtypes"] = {str(v): kinds[(n + v) % len(kinds)] for v in full}
+            if c["sizes"] == [2, 2, 2] and c["mode"] == "find" and n % 2 == 0 and "vdtypes" not in cc:
                 # grown by a real Harvester: 2-d dataset -> expand_dims('c') -> harvest_cases at the new value
                 cc["route"] = "expand"
                 cc["variant"] = SORTED_VARIANTS[n % len(SORTED_VARIANTS)]
@@ -541,6 +568,10 @@ def run(rep):
     if nforeign < 50:
         raise tlc.TLCError("vacuous case set: only %d requests naming a foreign parameter on a dataset that holds data" % nforeign)
     rep.extra["foreign_parameter_requests"] = nforeign
+    ntyped = sum(1 for c in final if c.get("vdtypes") and any(k != "data" for row in c["cells"] for k in row))
+    if ntyped < 50:
+        raise tlc.TLCError("vacuous case set: only %d cases with an int/bool/str variable next to a variable with nulls" % ntyped)
+    rep.extra["typed_variable_cases"] = ntyped
     nperm = sum(1 for c in final if c["layout"] == "permuted" and len(c["sizes"]) >= 2 and 0 < len(c.get("missing", c.get("expect"))) < len(c["cells"]))
     nroute = sum(1 for c in final if c.get("route") == "expand")
     if nperm < 50 or nroute < 20:
